@@ -906,6 +906,12 @@ static std::string doStep(const vj::Val& st) {
       bloc_free_context(c0); close(fd0);
       o += ",\"oc\":" + vj::q(oc) + ",\"per\":" + per + ",\"races\":" + tsanRaces();
     }
+    else if (op == "settrust") {
+      /* the host promotes / demotes a context (Context::trusted(bool)) */
+      Ctx& c = getCtx(id);
+      c.ctx->trusted(st.boolean("on", false));
+      o += ",\"oc\":\"ok\"";
+    }
     else if (op == "unban") {
       PluginManager::instance().unbanPlugin(st.str("m"));
       o += ",\"oc\":\"ok\"";
